@@ -1330,6 +1330,34 @@ func c17RepeatedFailures(c *Ctx, maxv string) {
 		}
 	}
 	r.Obs("repeated_failing_requests_sent", sent)
+	// a client that sends well-formed requests and never reads an answer: its own answers pile up, nobody else's may
+	if p.alive() {
+		if nc, err := net.DialTimeout("tcp", p.addr, 5*time.Second); err == nil {
+			_, _ = nc.Write(encPlain(frame.NewFrame(primitive.ProtocolVersion4, 0, &message.Startup{Options: map[string]string{"CQL_VERSION": "3.0.0"}})))
+			_ = nc.SetWriteDeadline(time.Now().Add(20 * time.Second))
+			if t, ok := nc.(*net.TCPConn); ok {
+				_ = t.SetReadBuffer(2048) // a small receive window: the proxy's answers back up into the proxy quickly
+			}
+			pad := "x"
+			nw := 0
+			for i := 0; i < c.Pick(150000, 600000); i++ {
+				q := frame.NewFrame(primitive.ProtocolVersion4, int16(1+i%30000), &message.Query{Query: fmt.Sprintf("SELECT * FROM ks1.t WHERE k = 'T%016x' AND pad = '%s'", 0xabc000000000+i, pad), Options: &message.QueryOptions{Consistency: primitive.ConsistencyLevelOne}})
+				if _, err := nc.Write(encPlain(q)); err != nil {
+					break // the proxy stopped reading from this client (or dropped it): fine either way
+				}
+				nw++
+			}
+			r.Obs("requests_sent_by_a_client_that_never_reads", nw)
+			suspects = append(suspects, fmt.Sprintf("a client that sent %d requests and never read an answer (still connected)", nw))
+			if why := p.canary(); why != "" {
+				c17Crash(r, p, "client-input/never-reads", suspects[len(suspects)-1:], why)
+				_ = nc.Close()
+				return
+			}
+			r.Obs("canary_rounds_ok", 1)
+			_ = nc.Close()
+		}
+	}
 	// and many short-lived hostile connections (4 at a time): whatever a client connection holds is given back when it ends
 	{
 		var hin []hostile
